@@ -63,6 +63,9 @@ void extend_runs(Trace& tr, std::mt19937_64& rng, int runs) {
     int nv = 3 + static_cast<int>(rng() % 4);
     int span = spans[rng() % 4];
     int base = static_cast<int>(rng() % 5) - 2;
+    // the vertex function is handed over multiplied by a power of two in some runs (2^-60, 2^40: exact); the extended
+    // filtration, its order and the decoded values (divided back) do not depend on the unit
+    const double sc = r % 4 == 2 ? std::ldexp(1.0, -60) : (r % 8 == 5 ? std::ldexp(1.0, 40) : 1.0);
     for (int k = 0; k < 5; ++k) {
       std::vector<int> s;
       int sz = r % 6 == 3 ? 1 : 1 + static_cast<int>(rng() % 3);   // (every 6th run: vertices only)
@@ -74,16 +77,16 @@ void extend_runs(Trace& tr, std::mt19937_64& rng, int runs) {
     for (auto v : st.complex_vertex_range()) vs.push_back(v);
     for (std::size_t i = 0; i < vs.size(); ++i) {
       int val = base + (span == 0 ? 0 : (i == 0 ? 0 : (i == 1 ? span : static_cast<int>(rng() % (span + 1)))));
-      st.assign_filtration(st.find({vs[i]}), val);
+      st.assign_filtration(st.find({vs[i]}), val * sc);
     }
     if (vs.size() < 2 && span != 0) continue;
-    for (auto sh : st.complex_simplex_range()) if (st.dimension(sh) > 0) st.assign_filtration(sh, static_cast<double>(static_cast<int>(rng() % 7) - 3));  // ignored by extend_filtration
+    for (auto sh : st.complex_simplex_range()) if (st.dimension(sh) > 0) st.assign_filtration(sh, sc * static_cast<double>(static_cast<int>(rng() % 7) - 3));  // ignored by extend_filtration
     bj::array k0;
     for (auto sh : st.complex_simplex_range()) {
       std::vector<int> s;
       for (auto v : st.simplex_vertex_range(sh)) s.push_back(v);
       std::sort(s.begin(), s.end());
-      k0.push_back(bj::object{{"s", jarr(s)}, {"f", fv(static_cast<double>(st.filtration(sh)))}});
+      k0.push_back(bj::object{{"s", jarr(s)}, {"f", fv(static_cast<double>(st.filtration(sh)) / sc)}});
     }
     tr.emit(bj::object{{"op", "load"}, {"k", k0}});
     // every second run the filtration cache is alive when the complex is extended (the range is only walked: the values
@@ -102,7 +105,7 @@ void extend_runs(Trace& tr, std::mt19937_64& rng, int runs) {
       k.push_back(bj::object{{"s", jarr(s)}, {"f", static_cast<std::int64_t>(f4)}});
       auto d = st.decode_extended_filtration(st.filtration(sh), efd);
       const char* t = d.second == Gudhi::Extended_simplex_type::UP ? "UP" : (d.second == Gudhi::Extended_simplex_type::DOWN ? "DOWN" : "EXTRA");
-      double v4 = 4.0 * static_cast<double>(d.first);
+      double v4 = 4.0 * static_cast<double>(d.first) / sc;
       if (std::string(t) != "EXTRA" && std::floor(v4) != v4) exact = false;
       dec.push_back(bj::object{{"f4", static_cast<std::int64_t>(f4)}, {"v4", std::string(t) == "EXTRA" ? bj::value(0) : bj::value(static_cast<std::int64_t>(v4))}, {"t", t}});
     }
@@ -113,8 +116,8 @@ void extend_runs(Trace& tr, std::mt19937_64& rng, int runs) {
       std::sort(s.begin(), s.end());
       fl.push_back(jarr(s));
     }
-    bj::object ev{{"op", "extend"}, {"k", k}, {"min", fv(static_cast<double>(efd.minval))}, {"max", fv(static_cast<double>(efd.maxval))}, {"dec", dec},
-                  {"filt", fl}, {"ns", static_cast<std::int64_t>(st.num_simplices())}, {"cache_alive", walked > 0}};
+    bj::object ev{{"op", "extend"}, {"k", k}, {"min", fv(static_cast<double>(efd.minval) / sc)}, {"max", fv(static_cast<double>(efd.maxval) / sc)}, {"dec", dec},
+                  {"filt", fl}, {"ns", static_cast<std::int64_t>(st.num_simplices())}, {"cache_alive", walked > 0}, {"unit_log2", sc == 1.0 ? 0 : (sc < 1 ? -60 : 40)}};
     if (!exact) ev["off_lattice"] = true;   // rejected by the trace specification (no such field is accepted)
     tr.emit(ev);
     tr.emit(bj::object{{"op", "reset"}, {"k", bj::array{}}});
